@@ -535,9 +535,16 @@ func checkC06(c *Ctx) {
 	c.Clause("the only request data read are the X-Forwarded-For / X-Real-IP headers and RemoteAddr (port stripped through net.SplitHostPort)")
 	c.Clause("the result is an element of the health-filtered slice built in the same critical section, indexed by hash mod len / jumpHash(hash, len) of that same slice")
 	c.Clause("jumpHash returns a bucket that was compared below numBuckets (in-range structurally)")
+	c.Clause("the hashing strategies' pools are written (also through helpers that append into a sub-slice) only under the strategy's write lock")
 	c.NotDecided("minimal remapping of the integer jump-hash variant over all 2^32 keys × pool sizes (a numeric for-all)")
 
 	c.strategyHealthGuard("IPHashStrategy", "IPHashConsistentStrategy")
+	// the pool a pick is computed over is written only under the strategy's write lock: a pick that
+	// rewrites it (append into a prefix of the pool, in-place filtering) changes the eligible set of
+	// every later pick without any change of health
+	lockDiscipline(c, func(k string) bool {
+		return k == "loadbalancer.IPHashStrategy.backends" || k == "loadbalancer.IPHashConsistentStrategy.backends"
+	})
 	for _, typ := range []string{"IPHashStrategy", "IPHashConsistentStrategy"} {
 		fn := p.Fn("internal/loadbalancer", typ, "NextBackend")
 		construct := "loadbalancer.(*" + typ + ").NextBackend"
